@@ -9,7 +9,8 @@
 //       v.ctor i n | v.copy i j | v.move i j | v.assign i j | v.massign i j | v.reset i n
 //       v.set i k x | v.fill i x | v.dtor i | v.dump
 //       m.ctor i r c | m.copy | m.move | m.assign | m.massign | m.reset i r c | m.set i r c x
-//       m.fill i x | m.transpose i | m.dtor i | m.dump            (same for s. with one dimension)
+//       m.fill i x | m.scale i f | m.transpose i | m.invert i tol | m.dtor i | m.dump
+//                                                           (same for s. with one dimension; no scale/invert)
 //  3. stateless algebra:  op <name> <operand>...   operands:
 //       M r c x..   Mat (row major)        T r c x..  trans(Mat r x c)     V n x..  Vec
 //       S n x..     SymMat (packed lower)  W n x..    trans(Vec)           K x      scalar
@@ -316,6 +317,8 @@ static std::string dispatch(const std::vector<std::string>& t) {
     if (r < 1 || r > MM[i]->rows() || c < 1 || c > MM[i]->cols()) return "bad-op"; (*MM[i])(r, c) = vp::unhex(t[4]); return "ok"; }
   if (op == "m.fill"    && t.size() == 3 && MM[i]) { MM[i]->set_all(vp::unhex(t[2])); return "ok"; }
   if (op == "m.transpose" && t.size() == 2 && MM[i]) { MM[i]->transpose(); return "ok"; }
+  if (op == "m.invert"  && t.size() == 3 && MM[i]) { MM[i]->invert(vp::unhex(t[2])); return "ok"; }   // in place, on the object's history
+  if (op == "m.scale"   && t.size() == 3 && MM[i]) { *MM[i] *= vp::unhex(t[2]); return "ok"; }
   if (op == "m.dtor"    && t.size() == 2 && MM[i]) { MM[i].reset(); return "ok"; }
   // ---- SymMat
   if (op == "s.ctor"    && t.size() == 3 && !SS[i]) { SS[i].reset(new S(std::atoi(t[2].c_str()))); return "ok"; }
